@@ -68,3 +68,6 @@ def judge(case, impl, model):
         pf, finding = pf[1], (pf[0].split(':', 1)[1] if corr else None)
     return {'corr': corr, 'why': why, 'pfail': pf, 'finding': finding,
             'nontrivial': V.nontrivial(case, impl), 'tag': V.tag_of(case, impl)}
+
+
+twins = V.twins      # amplified run: the call preceded by the same call with number twins (0 / False / 0.0 ...)
